@@ -6,7 +6,7 @@
    projects the tokens Port.get returned to consumer c of port k, in order; [gets k c ops] counts its gets;
    [puts k ops] lists the tokens put on port k by the operations; [tl p] is token_list. *)
 From Coq Require Import List Bool NArith Arith.
-From SF Require Import Base.Str Port.Model Port.Proofs.
+From SF Require Import Base.Str Port.Model Port.Proofs Port.Boundary.
 Import ListNotations.
 Local Open Scope string_scope. Local Open Scope list_scope.
 
@@ -71,12 +71,38 @@ Theorem C03_boundary_add : forall s tgt tags pr te,
 Proof. exact boundary_add. Qed.
 (* ... and a rule's tag list is empty exactly when the multiset of its boundary tags is covered by the multiset
    of the tags shown to it ("the boundary tag set is complete").
-   PARTIAL: these four statements are not composed into one closed formula from the operation history to the
-   boundary port's stream; the composition is what the check's oracle computes and compares on every case. *)
+   (Kept from round 1; the composition into one formula is C03_boundary below.) *)
 Theorem C03_boundary_complete_partial : forall (r : rule) (seen : list string),
   (is_satisfied (fold_left (fun r g => remove_tag g r) seen r) = true <->
    forall g, count_occ string_dec (rtags r) g <= count_occ string_dec seen g).
 Proof. exact boundary_complete. Qed.
+
+(* BOUNDARY, the composed formula.  [strace sinit ops] (Port/Boundary.v) is a specification computed from the operation
+   history alone, without queues and without removing tags: a rule is (action, target, boundary tags T, tags shown to
+   it so far); it is shown every non-termination token put on the port after it was added, and before that the
+   non-termination tokens already in the port's history (replay); on being shown x it does, iff [covered T shown]
+   (the multiset T is included in the multiset of shown tags, C03_boundary_covered), put x on its target if
+   PROPAGATE and then Term RECOVERED if TERMINATE; rules act in the order they were added; the port itself keeps x
+   iff no covered rule targets the port itself; termination tokens bypass the rules.
+   The history of every port of the system -- the port itself (k = 0) and each boundary target -- is exactly what
+   this specification puts on it, in order, for every operation history; and every consumer of every such port
+   has received exactly the first (number of its gets) tokens of it. *)
+Theorem C03_boundary : forall n ops s es k p,
+  run (init KInter n) ops = (s, es) -> 0 < n -> nth_error (ports s) k = Some p ->
+  tl p = pputs k (strace sinit ops).
+Proof. exact boundary_formula. Qed.
+Theorem C03_boundary_delivery : forall n ops s es k p c,
+  run (init KInter n) ops = (s, es) -> 0 < n -> nth_error (ports s) k = Some p ->
+  recv k c (concat es) = firstn (gets k c ops) (pputs k (strace sinit ops)).
+Proof. exact boundary_delivery. Qed.
+Theorem C03_boundary_covered : forall T seen,
+  covered T seen = true <-> forall g, count_occ string_dec T g <= count_occ string_dec seen g.
+Proof. exact covered_spec. Qed.
+(* a complete rule stays complete: it acts on EVERY later token too, whatever its tag (and, if TERMINATE, sends
+   Term RECOVERED after each of them).  Each token is still forwarded at most once per rule. *)
+Theorem C03_boundary_rule_stays_complete : forall T seen more,
+  covered T seen = true -> covered T (seen ++ more) = true.
+Proof. exact covered_monotone. Qed.
 
 (* ---- examples: hypotheses are satisfiable, headline instances ---- *)
 (* a late subscriber, a blocked get served later, order preserved *)
@@ -94,6 +120,15 @@ Example C03_example_boundary :
   map tl (ports s) = [[Tok 7 "0.0"; Term RECOVERED]; [Tok 8 "0.1"]] /\
   recv 1 "x" (concat es) = [Tok 8 "0.1"].
 Proof. vm_compute. split; reflexivity. Qed.
+(* a PROPAGATE rule for tag 0.1 towards port 1 also forwards the later tokens 0.2 and 0.0 (once each); the
+   specification and the model agree *)
+Example C03_example_complete_rule_forwards_later_tokens :
+  let ops := [AddInter 1 ["0.1"] true false; Put 0 (Tok 1 "0.0"); Put 0 (Tok 2 "0.1"); Put 0 (Tok 3 "0.2");
+              Put 0 (Tok 4 "0.0")] in
+  let '(s, es) := run (init KInter 2) ops in
+  map tl (ports s) = [[Tok 1 "0.0"; Tok 2 "0.1"; Tok 3 "0.2"; Tok 4 "0.0"]; [Tok 2 "0.1"; Tok 3 "0.2"; Tok 4 "0.0"]] /\
+  pputs 1 (strace sinit ops) = [Tok 2 "0.1"; Tok 3 "0.2"; Tok 4 "0.0"].
+Proof. vm_compute. split; reflexivity. Qed.
 (* observation (not a finding, see design/notes/C03.md): a self-targeting PROPAGATE rule added after the token
    is already in the history puts it on the port a second time *)
 Example C03_example_late_self_rule :
@@ -110,3 +145,7 @@ Print Assumptions C03_boundary_history.
 Print Assumptions C03_boundary_put.
 Print Assumptions C03_boundary_add.
 Print Assumptions C03_boundary_complete_partial.
+Print Assumptions C03_boundary.
+Print Assumptions C03_boundary_delivery.
+Print Assumptions C03_boundary_covered.
+Print Assumptions C03_boundary_rule_stays_complete.
